@@ -685,6 +685,16 @@ func main() {
 			}
 		}
 	}
+	p5idx := 100
+	for _, en := range []string{"olla", "sherpa"} {
+		for _, pt := range []bool{false, true} {
+			p5idx++
+			if report.Mine(p5idx) {
+				p5(en, pt)
+			}
+		}
+	}
+	res.Info["P5"] = "translator scope: Anthropic route in translation and passthrough mode, 2 engines, stream on/off, kinds {ok, backend 500, backend 404, refused, answer begun then dies, invalid request} alone and in every ordered pair on one long-lived olla; after each history the translator's counters moved by total = requests, total = successful + failed, successful = full successes the client saw"
 	res.Info["P4"] = "skeletons of sequential requests (F = A resets, failover to B; K = plain) with the start and release of one or two held-open responses inserted at every pair of positions; >= 5 F open the olla engine's breaker so later requests skip A; gauge oracle after every event, counters at the end; 2 engines x 3 balancers"
 	res.Info["bounds"] = map[string]any{"outcome_kinds": kinds, "clients": "1 (P1), 2 (all block orders), 3 (<=1 preemption quick, <=2 thorough; tuples with 1-2 failing clients quick)", "engines": []string{"sherpa", "olla"},
 		"balancers": []string{"priority", "least-connections"}, "gates": "backend arrival of every attempt", "p3": "RecordConnection +-1 from 3 threads, <=3 preemptions"}
